@@ -52,6 +52,7 @@ type C15Plan struct {
 	Spelling string      `json:"spelling,omitempty"`  // dot | dotdot | abs | plain
 	Umask    int         `json:"umask,omitempty"`
 	NKeys    int         `json:"nkeys,omitempty"`     // keygen-y: identities in the input
+	Answer   string      `json:"answer,omitempty"`    // decrypt-p: right | wrong | empty | hangup ; encrypt-p: match | mismatch (typed at the passphrase prompt on the pseudo-terminal)
 	RaceAt   string      `json:"race_at,omitempty"`   // keygen-race: open | mid  (when the competing creator acts)
 	RaceKind string      `json:"race_kind,omitempty"` // keygen-race: file | symlink | hardlink
 }
@@ -74,11 +75,11 @@ func (C15) Meta() core.Meta {
 	return core.Meta{
 		Level:       "fault_enumeration",
 		Rule:        "a case = one process run of the real binary: operation (encrypt with -r/-R/-e -i, decrypt with -i incl. several identity files, keygen, keygen -y), key types (X25519, ssh-ed25519, ssh-rsa), armor, input size 0..3 chunks from file or pre-filled pipe, output to -o file / pipe / redirected file, damaged input (header flip, payload flip, truncation, truncation exactly at a chunk boundary), pre-existing output, -o naming the input / an identity file / a recipients file under ./x, d/../x, absolute, and non-canonical absolute (/./, /d/../, //) spellings, and one output fault: RLIMIT_FSIZE=n (sweep runs: every n in 0..len(output)), missing parent directory, target is a directory, /dev/full, stdout pipe closed before start; or (keygen-race) a second actor that creates the -o name (regular file, symbolic link or hard link, exclusively) at the moment age-keygen -y opens its FIFO input or after half of the input. Oracle: a name another party managed to create is never replaced or written through, and then the status is non-zero; exit 0 => destination holds the complete result (decrypt: == P; encrypt: reference model decrypts it to the input; keygen: parseable key file, mode 0600; keygen -y: all recipient lines); no fault and valid input => exit 0; header-level refusal => -o neither created nor modified; payload failure => output is a prefix of P; same-file => refused, files intact; keygen -o existing => refused, intact. Non-trivial = a fault, damage, pre-existing or same-file condition is present; distinct = distinct plans.",
-		Assumptions: []string{"kernel, file system and process scheduling are real and not controlled; nothing in the oracle depends on timing (pipes are pre-filled or closed before start)", "passphrase (-p / scrypt) flows need a terminal and are not exercised here", "runs as root: permission-denied destinations are not generated", "a death by signal (SIGXFSZ, SIGPIPE) counts as a non-zero status", "the key age-keygen generates comes from the child process's real CSPRNG: its value is checked for consistency, never logged or compared between runs"},
+		Assumptions: []string{"kernel, file system and process scheduling are real and not controlled; nothing in the oracle depends on timing (pipes are pre-filled or closed before start)", "passphrase flows (age -p, age -d of a passphrase file) run on a pseudo-terminal the simulator types into: right / wrong / empty passphrase, terminal hang-up, confirmation mismatch", "runs as root: permission-denied destinations are not generated", "a death by signal (SIGXFSZ, SIGPIPE) counts as a non-zero status", "the key age-keygen generates comes from the child process's real CSPRNG: its value is checked for consistency, never logged or compared between runs"},
 		Real:        []string{"cmd/age and cmd/age-keygen binaries built from the working tree", "Linux kernel: files, pipes, RLIMIT_FSIZE, /dev/full"},
 		Stub:        []string{"argv, environment, input files, identity/recipient files, file descriptors and limits (the plan)"},
-		FaultKinds:  []string{"fault.fsize", "fault.nodir", "fault.isdir", "fault.devfull", "fault.closedpipe", "fault.damage_header", "fault.damage_payload", "fault.damage_trunc", "fault.damage_trunc_chunk", "fault.no_matching_identity", "fault.competing_creator"},
-		Probes:      []string{"probe.exit0_complete", "probe.exit_nonzero", "probe.killed_by_signal", "probe.same_file_refused", "probe.pre_existing_output", "probe.keygen_mode_checked", "probe.empty_plaintext", "probe.multi_chunk", "probe.fsize_limit_below_output", "probe.fsize_limit_at_or_above_output", "probe.header_refusal_output_untouched", "probe.partial_output_is_prefix", "probe.stdin_input", "probe.several_identity_files", "probe.dash_names", "probe.pre_existing_symlink", "probe.race_competitor_refused", "probe.race_competitor_created"},
+		FaultKinds:  []string{"fault.fsize", "fault.nodir", "fault.isdir", "fault.devfull", "fault.closedpipe", "fault.damage_header", "fault.damage_payload", "fault.damage_trunc", "fault.damage_trunc_chunk", "fault.no_matching_identity", "fault.competing_creator", "fault.passphrase_wrong", "fault.passphrase_empty", "fault.passphrase_hangup", "fault.passphrase_mismatch"},
+		Probes:      []string{"probe.exit0_complete", "probe.exit_nonzero", "probe.killed_by_signal", "probe.same_file_refused", "probe.pre_existing_output", "probe.keygen_mode_checked", "probe.empty_plaintext", "probe.multi_chunk", "probe.fsize_limit_below_output", "probe.fsize_limit_at_or_above_output", "probe.header_refusal_output_untouched", "probe.partial_output_is_prefix", "probe.stdin_input", "probe.several_identity_files", "probe.dash_names", "probe.pre_existing_symlink", "probe.race_competitor_refused", "probe.race_competitor_created", "probe.passphrase_on_pseudo_terminal"},
 	}
 }
 
@@ -173,10 +174,22 @@ func (C15) Generate(r *core.RNG, tier string, idx uint64) interface{} {
 		p.PreEmpty = r.Chance(1, 2)
 		p.OutVia = "file"
 	}
+	if p.Fault.Kind == "" && p.SameAs == "" && r.Chance(1, 10) {
+		// passphrase flows: the prompts are answered on a pseudo-terminal
+		p.Op = "decrypt-p"
+		p.Answer = []string{"right", "right", "wrong", "wrong", "empty", "hangup"}[r.Intn(6)]
+		p.PLen = r.Pick(0, 1, 100, 70000)
+		p.Sweep = false
+		if r.Chance(1, 6) {
+			p.Op = "encrypt-p"
+			p.Answer = []string{"match", "mismatch"}[r.Intn(2)]
+			p.PLen = r.Pick(0, 1, 100)
+		}
+	}
 	if p.Op == "keygen-race" {
 		p.Fault, p.SameAs, p.PreExist, p.PreLink = OutFault{}, "", false, false
 	}
-	if idx%12 == 5 && (p.Fault.Kind == "" || p.Fault.Kind == "fsize") && p.SameAs == "" && p.Op != "keygen-race" {
+	if idx%12 == 5 && (p.Fault.Kind == "" || p.Fault.Kind == "fsize") && p.SameAs == "" && p.Op != "keygen-race" && p.Op != "decrypt-p" && p.Op != "encrypt-p" {
 		// exhaustive: every byte offset at which a size-limited output can fail
 		p.Sweep = true
 		p.Fault = OutFault{Kind: "fsize"}
@@ -363,6 +376,9 @@ func (e C15) Execute(plan interface{}, c *core.Ctx) *core.Verdict {
 	}
 	if p.Op == "keygen-race" {
 		return e.race(p, c, kgBin)
+	}
+	if p.Op == "decrypt-p" || p.Op == "encrypt-p" {
+		return e.passCase(p, c, ageBin)
 	}
 	if !p.Sweep {
 		return e.one(p, p.Fault, c, ageBin, kgBin, nil, -1)
@@ -1027,6 +1043,137 @@ func (e C15) race(p *C15Plan, c *core.Ctx, kgBin string) *core.Verdict {
 	}
 	if rerr != nil || string(got) != want.String() {
 		return core.Fail("C15.exit0_incomplete", "exit status 0 but the output holds %q, the complete result is %q", clipS(string(got)), clipS(want.String()))
+	}
+	return nil
+}
+
+// passCase: passphrase encryption and decryption, the person at the terminal simulated on a pseudo-terminal.
+func (e C15) passCase(p *C15Plan, c *core.Ctx, ageBin string) *core.Verdict {
+	dir, err := os.MkdirTemp("", "c15p-")
+	if err != nil {
+		return core.Fail("harness", "%v", err)
+	}
+	defer os.RemoveAll(dir)
+	P := core.Pattern(p.PSeed, p.PLen)
+	const pass = "correct horse" // world.Passphrases[0]
+	outPath := filepath.Join(dir, "out.bin")
+	pre := []byte("PRE-EXISTING CONTENT THAT MUST SURVIVE A REFUSAL\n")
+	if p.PreEmpty {
+		pre = []byte{}
+	}
+	if p.PreExist {
+		os.WriteFile(outPath, pre, 0o644)
+		c.Stats.Inc("probe.pre_existing_output")
+	}
+	preIno, _, preOK := fileID(outPath)
+	var argv []string
+	if p.Op == "decrypt-p" {
+		spec := lib.FileSpec{PSeed: p.PSeed, PLen: p.PLen, Tape: p.Tape, Armor: p.Armor, Recips: []lib.Recip{{Key: &world.Key{T: "s", K: 0, WF: 10}}}}
+		img, _ := lib.MustEncrypt(spec)
+		os.WriteFile(filepath.Join(dir, "in.age"), img, 0o600)
+		argv = []string{ageBin, "-d", "-o", outPath, filepath.Join(dir, "in.age")}
+	} else {
+		os.WriteFile(filepath.Join(dir, "in.bin"), P, 0o600)
+		argv = []string{ageBin, "-p"}
+		if p.Armor {
+			argv = append(argv, "-a")
+		}
+		argv = append(argv, "-o", outPath, filepath.Join(dir, "in.bin"))
+	}
+	pt, err := lib.OpenPTY()
+	if err != nil {
+		return core.Fail("harness", "pty: %v", err)
+	}
+	defer pt.Close()
+	cmd := exec.Command(argv[0], argv[1:]...)
+	cmd.Dir = dir
+	cmd.Env = []string{"PATH=/usr/bin:/bin", "HOME=" + dir, "TZ=UTC", "LANG=C"}
+	var errBuf, outBuf bytes.Buffer
+	cmd.Stderr, cmd.Stdout = &errBuf, &outBuf
+	if err := pt.Start(cmd); err != nil {
+		return core.Fail("harness", "start: %v", err)
+	}
+	done := make(chan error, 1)
+	go func() { done <- cmd.Wait() }()
+	typed := map[string][]string{"right": {pass}, "wrong": {"not the passphrase"}, "empty": {""}, "match": {pass, pass}, "mismatch": {pass, pass + "x"}}[p.Answer]
+	prompts := []string{"Enter passphrase", "Confirm passphrase"}
+	for i, t := range typed {
+		if _, err := pt.Expect(prompts[i], 30*time.Second); err != nil {
+			cmd.Process.Kill()
+			<-done
+			return core.Fail("C15.hang", "age did not ask for the passphrase (%s #%d) on its terminal: %v; stderr %q", p.Op, i, err, clipS(errBuf.String()))
+		}
+		pt.Type(t + "\n")
+		prompts[0] = "\x00never" // each prompt text is matched once
+	}
+	if p.Answer == "hangup" {
+		pt.Expect("Enter passphrase", 30*time.Second)
+		pt.Close() // the terminal goes away while age waits for the passphrase
+	}
+	exit := -1
+	for exit == -1 {
+		select {
+		case <-done:
+			exit = cmd.ProcessState.ExitCode()
+			if ws, ok := cmd.ProcessState.Sys().(syscall.WaitStatus); ok && ws.Signaled() {
+				exit = 128 + int(ws.Signal())
+			}
+		case <-time.After(60 * time.Second):
+			cmd.Process.Kill()
+			<-done
+			return core.Fail("C15.hang", "%s with the passphrase prompt answered (%s) did not finish within 60 s", p.Op, p.Answer)
+		}
+	}
+	got, rerr := os.ReadFile(outPath)
+	ino, _, exists := fileID(outPath)
+	stderr := strings.ReplaceAll(errBuf.String(), dir, "$D")
+	c.Stats.Eval(fmt.Sprintf("%+v", *p), true)
+	c.Stats.Inc("probe.passphrase_on_pseudo_terminal")
+	c.Log.Add("%s answer=%s armor=%v |P|=%d pre=%v -> exit=%d out=%d bytes (exists=%v) stderr=%q", p.Op, p.Answer, p.Armor, p.PLen, p.PreExist, exit, len(got), exists, clipS(strings.SplitN(stderr, "\n", 2)[0]))
+	desc := fmt.Sprintf("%s (answer %s, armor=%v, |P|=%d, pre-existing output=%v)", p.Op, p.Answer, p.Armor, p.PLen, p.PreExist)
+	untouched := func() *core.Verdict {
+		switch {
+		case !preOK && exists:
+			return core.Fail("C15.refusal_created_output", "%s was refused and still created the -o file (%d bytes); stderr %q", desc, len(got), clipS(stderr))
+		case preOK && (!exists || ino != preIno || !bytes.Equal(got, pre)):
+			return core.Fail("C15.refusal_modified_output", "%s was refused and modified the existing -o file; stderr %q", desc, clipS(stderr))
+		}
+		c.Stats.Inc("probe.header_refusal_output_untouched")
+		return nil
+	}
+	switch p.Answer {
+	case "right":
+		if exit != 0 {
+			return core.Fail("C15.spurious_failure", "%s: right passphrase, valid file, yet exit status %d; stderr %q", desc, exit, clipS(stderr))
+		}
+		if rerr != nil || !bytes.Equal(got, P) {
+			return core.Fail("C15.exit0_incomplete", "%s: exit status 0 but the output holds %d bytes, the plaintext has %d", desc, len(got), len(P))
+		}
+		c.Stats.Inc("probe.exit0_complete")
+	case "match":
+		if exit != 0 {
+			return core.Fail("C15.spurious_failure", "%s: the passphrase was typed twice alike, yet exit status %d; stderr %q", desc, exit, clipS(stderr))
+		}
+		pt2, _, derr := lib.RefOpen(got, p.Armor, world.Key{T: "s", K: 0})
+		if rerr != nil || derr != nil || !bytes.Equal(pt2, P) {
+			return core.Fail("C15.exit0_incomplete", "%s: exit status 0 but the reference model cannot decrypt the output with the typed passphrase: %v", desc, derr)
+		}
+		c.Stats.Inc("probe.exit0_complete")
+	default:
+		c.Stats.Inc("fault.passphrase_" + p.Answer)
+		if exit == 0 {
+			return core.Fail("C15.refusal_exit0", "%s must be refused but the exit status is 0", desc)
+		}
+		c.Stats.Inc("probe.exit_nonzero")
+		if p.Op == "decrypt-p" {
+			return untouched()
+		}
+		if exists && !preOK {
+			// encryption refused before anything could be encrypted: a created -o is not a complete result
+			if len(got) != 0 {
+				return core.Fail("C15.refusal_created_output", "%s was refused and left %d bytes in a new -o file", desc, len(got))
+			}
+		}
 	}
 	return nil
 }
